@@ -33,7 +33,7 @@ def _zero_ext(frm, to):
 
 
 # in-crate functions kept as named calls in normal forms (their own behaviour is the subject of another property)
-OPAQUE_CALLS = {"string_table::StringTable::get", "string_table::StringTable::get_raw"}
+OPAQUE_CALLS = {"string_table::StringTable::get", "string_table::StringTable::get_raw", "parse::ParsingTable::get"}
 _PROG = [None]
 _SINGLE_OK = {}
 
@@ -57,11 +57,14 @@ def single_ok_payload(qual):
     fns = prog.facts.fns.get(qual) or []
     if len(fns) == 1 and not any("&mut" in x for x in fns[0].get("sig", {}).get("inputs", [])):
         an = prog.analysis(fns[0])
-        leaves = an.ret_leaves() if an is not None else None
-        if leaves:
-            oks = [t for t, _ in leaves if t.op == "agg" and t.args[3] == "Ok"]
-            if len(oks) == 1 and prog._closed(oks[0]):
-                res = oks[0].args[4][0]
+        if an is not None and an.ret_leaves():
+            oks = []
+            for v, _ in ok_outcomes(an):       # Ok(v) aggregates and forwarded results (payload of the forwarded value)
+                if v not in oks:
+                    oks.append(v)
+            if len(oks) == 1 and prog._closed(oks[0]) and not (oks[0].op == "payload" and oks[0].args[1] == "Ok" and oks[0].args[0].op == "call"
+                                                                and oks[0].args[0].args[0] == qual):
+                res = oks[0]
     _SINGLE_OK[qual] = res
     return res
 
@@ -104,7 +107,7 @@ def norm(t, depth=0):
             f, g, args = x.args
             if vn == "Some" and f in COMM_CALLS:
                 return (COMM_CALLS[f],) + tuple(sorted((norm(args[0], d), norm(args[1], d)), key=repr))
-            if vn == "Ok" and f == "convert::TryInto::try_into":
+            if vn == "Ok" and f in ("convert::TryInto::try_into", "convert::TryFrom::try_from"):
                 return norm(args[0], d)
             if vn == "Ok" and f == "parse::ParseAt::validate_entsize":
                 return ("entsize", g[0] if g else "?", norm(args[1], d))
@@ -182,6 +185,10 @@ def norm(t, depth=0):
         return (op,) + tuple(norm(x, d) for x in a)
     if op == "adv":
         return ("adv", norm(a[0], d))
+    if op == "mterm":
+        return ("mterm", norm(a[0], d), tuple((v, norm(x, d)) for v, x in a[1]))
+    if op == "ite":
+        return ("ite", norm(a[0], d), norm(a[1], d), norm(a[2], d))
     return (op,) + tuple(norm(x, d) if isinstance(x, Term) else ("raw", repr(x)) for x in a)
 
 
@@ -335,7 +342,7 @@ def classify_failure(an, t, st):
                     if rn[0] == "agg" and len(rn[3]) == 2:
                         bn = norm(buf)
                         return ("read", rn[3][0], rn[3][1]) if _is_filebuf(bn) else ("slice", bn, rn[3][0], rn[3][1])
-            if f == "convert::TryInto::try_into":
+            if f in ("convert::TryInto::try_into", "convert::TryFrom::try_from"):
                 return ("conv", norm(args[0]))
             if f == "parse::ParseAt::validate_entsize" or f.endswith(" as parse::ParseAt>::validate_entsize"):
                 T_ = g[0] if f == "parse::ParseAt::validate_entsize" else f[1:].split(" as ")[0]
